@@ -102,6 +102,15 @@ def run(tier, seed):
     rep.rule('WINDOW.forward', 'each bound of the configured energy-sum window reaches the engine on its own (a one-sided window is honoured)')
     from ..rules import window
     window.forward(rep, project.load('lib'), 'WINDOW.forward')
+    # the level energy enters the budget as levelE / 1000.: an integer/integer quotient would truncate it to whole MeV
+    from ..rules import intdiv
+    lp = project.load('lib')
+    bud = [k for k, f in lp.functions.items() if f.get('file', '').endswith(('/genbbsub.cc', '/bb.cc', '/bb.h', '/bb_utils.cc', '/decay0_generator.cc'))
+           and f.get('body')]
+    rep.analysed['integer/integer divisions in the energy-budget units'] = intdiv.check(rep, lp, bud, rule='BUDGET.no-truncation')
+    rep.rule('BUDGET.no-truncation', 'in genbbsub / bb / bb_utils / decay0_generator no integer/integer division has its truncated quotient '
+             'converted to floating point (Edlevel = levelE / 1000. must keep the keV part of the daughter level energy)')
+    rep.add('BUDGET.no-truncation', 'scan', 'bxdecay0/genbbsub.cc', '%d functions of the energy-budget units scanned' % len(bud), len(bud) >= 10, nontrivial=False)
     return rep
 
 
